@@ -453,6 +453,12 @@ void sim_on_client_bytes(struct sim *s, const uint8_t *b, size_t n)
 	CNT("wire/write_chunks");
 	cnt_add("wire/bytes", n);
 	s->sent_hash = hbytes(s->sent_hash, b, n);
+	if (getenv("LF_DEBUG")) {
+		fprintf(stderr, "DBG sent t=%ld:", (long)VNOW);
+		for (size_t i = 0; i < n; i++)
+			fprintf(stderr, " %02x", b[i]);
+		fprintf(stderr, "\n");
+	}
 	if (w->broken)
 		return;
 	if (w->len + n > sizeof(w->buf)) {
